@@ -1,29 +1,105 @@
 (** Property C13 — bonding descriptors are separated from fragment text exactly.
     Only statements, each closed by [exact]; proofs live in theories/Frag/.
     [strip_bonding_descriptors] is the character machine of Frag/StripImpl.v (compared with the
-    implementation on every run), [strip_spec] the specification of Frag/FragText.v. *)
+    implementation on every run; its constant tables are regenerated from read_fragments.py into
+    Gen/FragGen.v), [strip_spec] the specification of Frag/FragText.v (DESIGN Appendix A).
+    [fo] is the oracle for Python's float() on annotation values: the theorems hold for every oracle. *)
 From Coq Require Import String.
 From Coq Require Import List Ascii ZArith Bool.
-From CGV Require Import Base.PyBase Base.PyVal Dialect.DialectImpl Frag.NDict Frag.StripImpl Frag.FragText Frag.StripFacts.
+From CGV Require Import Base.PyBase Base.PyVal Gen.FragGen Dialect.DialectImpl Frag.NDict Frag.StripImpl Frag.FragText
+     Frag.StripFacts Frag.FragProofs Frag.FragStages Frag.FragSmall.
 Import ListNotations.
 
 (** The full statement
       forall fo toks dc, wf toks dc = true ->
         strip_bonding_descriptors fo (render (decorate toks dc)) = strip_spec fo toks dc
-    is NOT provable for the current code: three defect classes inside the domain. *)
-Theorem C13_refuted_desc_after_symbol_ring :
+    is NOT provable for the current code: three defect classes lie inside the domain
+    ([class_of] = 1 desc_after_symbol_ring, 2 zero_order_symbol, 3 coarse_multiplier), each refuted
+    by a concrete witness below.  [excluded toks dc = false] says exactly [class_of … = 0]. *)
+Theorem C13_partial : forall fo toks dc, wf toks dc = true -> excluded toks dc = false ->
+  strip_bonding_descriptors fo (render (decorate toks dc)) = strip_spec fo toks dc.
+Proof. exact strip_correct. Qed.
+
+(** non-vacuity: [>]=C(/Cl)=1-[$a]C[NH3+]#[<]C1=[!2][$] is in the domain, outside the classes, and its
+    specification value is the expected one *)
+Example C13_nonvacuous : wf nv_toks nv_dc = true /\ excluded nv_toks nv_dc = false /\
+  strip_spec fo0 nv_toks nv_dc =
+    Ok (S "C(Cl)=1C[NH3+]C1", [(0, [S ">2"; S "$a1"]); (3, [S "<3"]); (4, [S "!22"; S "$1"])],
+        [(1, "/"%char); (0, "/"%char)], [(3, [(S "weight", VFlt (S "1.0"))])]).
+Proof. exact nonvacuous. Qed.
+
+(** refutations of the full statement, one per defect class *)
+Theorem C13_refuted_desc_after_symbol_ring :     (* C=1[$]CC1 *)
   wf w1_toks w1_dc = true /\ class_of (decorate w1_toks w1_dc) = 1 /\
   strip_bonding_descriptors fo0 (render (decorate w1_toks w1_dc)) <> strip_spec fo0 w1_toks w1_dc.
 Proof. exact refuted_ring. Qed.
-Theorem C13_refuted_zero_order_symbol :
+Theorem C13_refuted_zero_order_symbol :          (* C.[$] *)
   wf w2_toks w2_dc = true /\ class_of (decorate w2_toks w2_dc) = 2 /\
   strip_bonding_descriptors fo0 (render (decorate w2_toks w2_dc)) <> strip_spec fo0 w2_toks w2_dc.
 Proof. exact refuted_zero. Qed.
-Theorem C13_refuted_coarse_multiplier :
+Theorem C13_refuted_coarse_multiplier :          (* [<][#PEO]|4[>] *)
   wf w3_toks w3_dc = true /\ class_of (decorate w3_toks w3_dc) = 3 /\
   strip_bonding_descriptors fo0 (render (decorate w3_toks w3_dc)) <> strip_spec fo0 w3_toks w3_dc.
 Proof. exact refuted_mult. Qed.
 
+(** stages: the theorem on sub-grammars.  Without ring markers (and multipliers) only the order-0
+    symbol before a non-leading descriptor is excluded. *)
+Theorem C13_chains : forall fo toks dc, forallb stage_a toks = true -> wf toks dc = true ->
+  nonlead_zero (decorate toks dc) = false ->
+  strip_bonding_descriptors fo (render (decorate toks dc)) = strip_spec fo toks dc.
+Proof. exact strip_chains. Qed.
+Theorem C13_branches : forall fo toks dc, forallb stage_b toks = true -> wf toks dc = true ->
+  nonlead_zero (decorate toks dc) = false ->
+  strip_bonding_descriptors fo (render (decorate toks dc)) = strip_spec fo toks dc.
+Proof. exact strip_branches. Qed.
+Theorem C13_rings : forall fo toks dc, forallb stage_c toks = true -> wf toks dc = true ->
+  nonlead_zero (decorate toks dc) = false -> stale_ring false (decorate toks dc) = false ->
+  strip_bonding_descriptors fo (render (decorate toks dc)) = strip_spec fo toks dc.
+Proof. exact strip_rings. Qed.
+Theorem C13_atomistic : forall fo toks dc, forallb stage_d toks = true -> wf toks dc = true ->
+  nonlead_zero (decorate toks dc) = false -> stale_ring false (decorate toks dc) = false ->
+  strip_bonding_descriptors fo (render (decorate toks dc)) = strip_spec fo toks dc.
+Proof. exact strip_atomistic. Qed.
+Theorem C13_coarse : forall fo toks dc, forallb stage_e toks = true -> wf toks dc = true ->
+  nonlead_zero (decorate toks dc) = false -> stale_ring false (decorate toks dc) = false ->
+  strip_bonding_descriptors fo (render (decorate toks dc)) = strip_spec fo toks dc.
+Proof. exact strip_coarse. Qed.
+Example C13_stages_nonvacuous :
+  in_stage stage_a ex_a_toks ex_a_dc = true /\ in_stage stage_b ex_b_toks ex_b_dc = true /\
+  in_stage stage_c ex_c_toks ex_c_dc = true /\ in_stage stage_d ex_d_toks ex_d_dc = true /\
+  in_stage stage_e ex_e_toks ex_e_dc = true.
+Proof. exact stages_nonvacuous. Qed.
+
+(** bounded exhaustive (vm_compute), independent of the induction: all 579195 item lists of length
+    <= 5 over a 14-item alphabet, of which 32420 are in the domain and outside the classes *)
+Theorem C13_small : forall items, In items (lists_upto small_bound small_alphabet) ->
+  wf_items ZStart 0 items = true -> excluded_items items = false ->
+  strip_bonding_descriptors fo0 (render items) = spec_items fo0 items.
+Proof. exact strip_small. Qed.
+
+(** the model's PeekIter is a one-character look-ahead over the rest of the text *)
+Theorem C13_peekiter_next : forall it c it', pi_next it = Ok (c, it') -> pi_rest it = c :: pi_rest it'.
+Proof. exact peekiter_abs_next_rest. Qed.
+Theorem C13_peekiter_stop : forall it e, pi_next it = Err e -> pi_rest it = [] /\ e = EStopIter.
+Proof. exact peekiter_abs_next_stop. Qed.
+Theorem C13_peekiter_peek : forall it, fst (pi_peek it) = hd_error (pi_rest it) /\ pi_rest (snd (pi_peek it)) = pi_rest it.
+Proof. exact peekiter_abs_peek. Qed.
+
+(** ties to the tables generated from read_fragments.py: the documented orders, the descriptor
+    kinds, and the fact about the two-letter list the proof uses *)
+Theorem C13_table_orders : forall b, order_lookup (bchar b) = Some (border b).
+Proof. exact order_lookup_bchar. Qed.
+Theorem C13_table_kinds : forall c, is_kind c = char_in c kind_chars.
+Proof. exact is_kind_kind_chars. Qed.
+
+Print Assumptions C13_partial.
 Print Assumptions C13_refuted_desc_after_symbol_ring.
 Print Assumptions C13_refuted_zero_order_symbol.
 Print Assumptions C13_refuted_coarse_multiplier.
+Print Assumptions C13_chains.
+Print Assumptions C13_branches.
+Print Assumptions C13_rings.
+Print Assumptions C13_atomistic.
+Print Assumptions C13_coarse.
+Print Assumptions C13_small.
+Print Assumptions C13_peekiter_peek.
